@@ -221,6 +221,12 @@ UNITS = {
         "src": "src/hnsw/quantization.rs",
         "anchors": ["pub fn from_bytes(buf: &'a [u8]) -> eyre::Result<Self>"],
     },
+    "numeric": {
+        "src": "src/sql/functions/numeric.rs",
+        "anchors": ["fn eval_abs<'a>(args: &[Option<Value<'a>>]) -> Option<Value<'a>>", "fn eval_sign<'a>(args: &[Option<Value<'a>>]) -> Option<Value<'a>>",
+                    "fn eval_div<'a>(args: &[Option<Value<'a>>]) -> Option<Value<'a>>", "fn eval_mod<'a>(args: &[Option<Value<'a>>]) -> Option<Value<'a>>",
+                    "fn eval_ceil<'a>(args: &[Option<Value<'a>>]) -> Option<Value<'a>>", "fn eval_floor<'a>(args: &[Option<Value<'a>>]) -> Option<Value<'a>>"],
+    },
 }
 
 PROPS = {
@@ -296,10 +302,10 @@ PROPS = {
     },
     "C20": {
         "level": "proof",
-        "level_text": "Proof for the calendar kernels of the date functions (shared with C41: date_to_days / days_to_date / day_of_week / day_of_year / leap and month-length rules follow the proleptic Gregorian calendar for every date of years 1..9999) and for integer arithmetic in both expression evaluators (CompiledPredicate::eval_binary_op and OwnedValue::eval_arithmetic): +, -, * over all i64 pairs whose result is an i64 are exact (oracle: checked_*), division and modulo by zero yield NULL for every dividend, NULL in => NULL out, shifts and unary minus. Partial: the quotient/remainder VALUE for non-zero divisors is tier=manual (64-bit division equivalence did not finish in 40 min); string functions, floating-point functions, CAST, control flow and text rendering are not covered.",
+        "level_text": "Proof for the calendar kernels of the date functions (shared with C41: date_to_days / days_to_date / day_of_week / day_of_year / leap and month-length rules follow the proleptic Gregorian calendar for every date of years 1..9999) and for integer arithmetic in both expression evaluators (CompiledPredicate::eval_binary_op and OwnedValue::eval_arithmetic): +, -, * over all i64 pairs whose result is an i64 are exact (oracle: checked_*), division and modulo by zero yield NULL for every dividend, NULL in => NULL out, shifts and unary minus; and for the integer kernels of ABS, SIGN, CEIL, FLOOR, DIV, MOD (exact on every i64, NULL on division by zero, NULL in => NULL out). Partial: the quotient/remainder VALUE for non-zero divisors is tier=manual (64-bit division equivalence did not finish in 40 min); string functions, floating-point functions, CAST, control flow and text rendering are not covered.",
         "level_note": "Partial. Open known finding: integer overflow (a+b, a-b, a*b, i64::MIN / -1, i64::MIN % -1, pow) panics in debug builds / wraps in release instead of reporting an error. str-level reasoning is outside both back ends.",
         "technique": "Kani full-domain Hoare triples on the real arithmetic and calendar kernels",
-        "kani_units": ["predicate", "datetime", "owned_arith"],
+        "kani_units": ["predicate", "datetime", "owned_arith", "numeric"],
         "explanation": "",
     },
     "C34": {
